@@ -237,12 +237,24 @@ def objective_function(ctx: Ctx, f: FuncInfo, arg: ast.AST):
     while isinstance(e, ast.Name) and e.id in defs and len(defs[e.id]) == 1 and hops < 4 and e.id not in f.nested:
         e = defs[e.id][0]
         hops += 1
+    import copy
+
+    from ..core import _Subst
+
+    def close_over(node, params):
+        """Copy of a nested function / lambda with the enclosing function's single-definition locals it captures substituted."""
+        own = set(params) | {x.id for x in ast.walk(node) if isinstance(x, ast.Name) and isinstance(x.ctx, ast.Store)}
+        cap = {k: v for k, v in defs.items() if k not in own and len(v) == 1 and not isinstance(v[0], (ast.AugAssign, ast.Lambda)) and k not in f.nested}
+        return _Subst(cap, 3).visit(copy.deepcopy(node)) if cap else node
+
     if isinstance(e, ast.Lambda):
-        return "lambda", e, None, [e.body]
+        e2 = close_over(e, [a.arg for a in e.args.args])
+        return "lambda", e2, None, [e2.body]
     if isinstance(e, ast.Name) and e.id in f.nested:
         nf = f.nested[e.id]
-        rets = [r.value for r in ast.walk(nf.node) if isinstance(r, ast.Return) and r.value is not None]
-        return "def", nf.node, nf, rets
+        node2 = close_over(nf.node, nf.params())
+        rets = [r.value for r in ast.walk(node2) if isinstance(r, ast.Return) and r.value is not None]
+        return "def", node2, nf, rets
     selfn = (f.self_name() if f.parent is None else f.parent.self_name()) or "self"
     if isinstance(e, ast.Attribute) and isinstance(e.value, ast.Name) and e.value.id == selfn and f.cls is not None:
         m = ctx.prog.lookup_method(f.cls, e.attr)
